@@ -1014,6 +1014,10 @@ class ThreeFrameTVG():
                     and (v.is_insertion() or v.is_deletion()) \
                     and not v.is_fusion() \
                     and not v.is_alternative_splicing():
+                if v.location.end >= len(self.seq.seq):
+                    # Reaches the end of the transcript, so there is no
+                    # nucleotide left to anchor the variant on.
+                    continue
                 v.to_end_inclusion(self.seq)
 
             # Skip variants that the position is smaller than the first NT
